@@ -31,6 +31,18 @@ var crlClassNames = []string{"clean", "lists-cert", "wrong-signer"}
 // "unauthorized" and "tryLater", an answer whose next-update time has passed.
 var ocspInconclusive = []string{"transport-error", "ocsp-error-status-6", "good/next-update-passed", "ocsp-error-status-3"}
 
+// crlInconclusive: likewise for "no usable CRL": signed by another key, past its next-update time, without one, carrying an unknown
+// critical extension.
+var crlInconclusive = []string{"wrong-signer", "expired", "unknown-critical-list-ext", "no-next-update"}
+
+// crlRep returns the behaviour that stands for a CRL class at a source.
+func crlRep(cls int, src source) *crlBehaviour {
+	if cls == 2 {
+		return crlByName(crlInconclusive[(src.cert+src.idx)%len(crlInconclusive)])
+	}
+	return crlByName(crlClassNames[cls])
+}
+
 // ocspRep returns the behaviour that stands for a class at a source.
 func ocspRep(cls int, src source) *ocspBehaviour {
 	if cls == 3 {
@@ -292,7 +304,7 @@ func (s *c11Scenario) body(c *mc.Ctx) {
 		if src.idx >= len(crlCls[src.cert]) {
 			return netsim.Answer{Status: 404}
 		}
-		return w.serveCRL(src, crlByName(crlClassNames[crlCls[src.cert][src.idx]]))
+		return w.serveCRL(src, crlRep(crlCls[src.cert][src.idx], src))
 	}
 	chain := pki.X509s(w.certs)
 	var res []*result.CertRevocationResult
